@@ -42,6 +42,8 @@ type deriveCase struct {
 	// fault injection on toy curves
 	FailNew   int `json:"fail_new,omitempty"`
 	FailShift int `json:"fail_shift,omitempty"`
+	// Wrap: the toy curve reports invalid candidates with an error wrapping ErrInvalidKey
+	Wrap bool `json:"wrap,omitempty"`
 }
 
 func masks(name string) byte {
@@ -65,10 +67,10 @@ func curves(c deriveCase) (slip10.Curve, ref.Curve, *counter) {
 	case "ed25519":
 		return eddsa.Ed25519(), ref.Ed25519, cnt
 	case "toyW50", "toyW90":
-		return &toyW{mask: masks(c.Curve), cnt: cnt, fault: fault{c.FailNew, c.FailShift}, nShift: new(int)},
+		return &toyW{wrap: c.Wrap, mask: masks(c.Curve), cnt: cnt, fault: fault{c.FailNew, c.FailShift}, nShift: new(int)},
 			&ref.Weier{C: secp.P256, Key: "toyW seed", Mask: masks(c.Curve)}, cnt
 	case "toyS50", "toyS90":
-		return &toyS{mask: masks(c.Curve), cnt: cnt, fault: fault{c.FailNew, c.FailShift}, nShift: new(int)},
+		return &toyS{wrap: c.Wrap, mask: masks(c.Curve), cnt: cnt, fault: fault{c.FailNew, c.FailShift}, nShift: new(int)},
 			&ref.Ed{Mask: masks(c.Curve), Toy: true}, cnt
 	}
 	return nil, nil, cnt
@@ -241,17 +243,24 @@ func checkDerive(c deriveCase) (info h.Info, err error) {
 	case faulty:
 		info = h.Info{Class: c.Curve + "/fault-not-reached", NT: len(c.Path) > 0}
 	case toy && masterRetries > 0 && totalRetries > masterRetries:
-		info = h.Info{Class: "retry/master+child", NT: true}
+		info = h.Info{Class: "retry/master+child" + wrapped(c), NT: true}
 	case toy && masterRetries > 0:
-		info = h.Info{Class: "retry/master", NT: true}
+		info = h.Info{Class: "retry/master" + wrapped(c), NT: true}
 	case toy && totalRetries > 0:
-		info = h.Info{Class: "retry/child", NT: true}
+		info = h.Info{Class: "retry/child" + wrapped(c), NT: true}
 	case public:
 		info = h.Info{Class: c.Curve + "/public-derivation", NT: true}
 	case len(c.Path) > 0:
 		info = h.Info{Class: c.Curve + "/path", NT: true}
 	}
 	return info, nil
+}
+
+func wrapped(c deriveCase) string {
+	if c.Wrap {
+		return "/wrapped-invalid-key"
+	}
+	return ""
 }
 
 // isPermanent: the curve's error came back to the caller (wrapped with %w or quoted in the message).
@@ -320,6 +329,9 @@ func genDerive(t *rapid.T) deriveCase {
 	if curve == "ed25519" && n > 0 && h.Pick(t, "edpub", 8, 1) == 1 {
 		c.PubFrom = rapid.IntRange(0, n-1).Draw(t, "pubfrom")
 	}
+	if curve[:3] == "toy" {
+		c.Wrap = h.Pick(t, "wrap", 2, 1) == 1
+	}
 	if curve[:3] == "toy" && h.Pick(t, "fault", 4, 1) == 1 {
 		if rapid.Bool().Draw(t, "faultnew") {
 			c.FailNew = rapid.IntRange(1, 4).Draw(t, "failnew")
@@ -335,8 +347,119 @@ func TestDerive(t *testing.T) {
 		Prop: "C02", Name: "derive", N: 2400,
 		Gen: genDerive, Check: checkDerive,
 		Require: []string{"secp256k1/path", "nist256p1/path", "ed25519/path", "secp256k1/public-derivation", "nist256p1/public-derivation",
-			"retry/master", "retry/child", "retry/master+child", "undefined/hardened-from-public", "undefined/ed25519-non-hardened",
+			"retry/master", "retry/child", "retry/master+child", "retry/master/wrapped-invalid-key", "retry/child/wrapped-invalid-key", "undefined/hardened-from-public", "undefined/ed25519-non-hardened",
 			"undefined/ed25519-non-hardened-public", "permanent-error/master", "permanent-error/child"},
-		Rule: "seeds of length 0..256 (weighted to > 64 and > 128 bytes) x {secp256k1, P-256, ed25519, toy curves with 50% / 87.5% invalid candidates (Weierstrass-like and string-key-like)} x paths of 0..6 hardened/non-hardened indices, optionally switching to the extended public key at a drawn step, optionally a permanent (non-ErrInvalidKey) curve error injected at a drawn call; at every prefix private key, chain code, serialized public key and fingerprint = own SLIP-0010 model with the same validity predicate; path API = step-wise; undefined derivations fail; permanent errors returned after exactly the expected number of curve calls (call budget 2000 instead of a timeout); non-trivial = path length >= 1 on a real curve, >= 1 retry on a toy curve, undefined derivation, or injected fault; distinct by case",
+		Rule: "seeds of length 0..256 (weighted to > 64 and > 128 bytes) x {secp256k1, P-256, ed25519, toy curves with 50% / 87.5% invalid candidates (Weierstrass-like and string-key-like)} x paths of 0..6 hardened/non-hardened indices, optionally switching to the extended public key at a drawn step, the toy curves report invalid candidates either with the bare ErrInvalidKey or with an error wrapping it; optionally a permanent (non-ErrInvalidKey) curve error injected at a drawn call; at every prefix private key, chain code, serialized public key and fingerprint = own SLIP-0010 model with the same validity predicate; path API = step-wise; undefined derivations fail; permanent errors returned after exactly the expected number of curve calls (call budget 2000 instead of a timeout); non-trivial = path length >= 1 on a real curve, >= 1 retry on a toy curve, undefined derivation, or injected fault; distinct by case",
+	})
+}
+
+// ---- long paths: depths around 256 and 512 ----
+
+func TestLongPaths(t *testing.T) {
+	h.Run(t, h.Sub[deriveCase]{
+		Prop: "C02", Name: "long-paths", N: 24,
+		Gen: func(t *rapid.T) deriveCase {
+			curve := []string{"toyS50", "ed25519"}[h.Pick(t, "curve", 3, 1)]
+			n := h.OneOf(t, "depth", 255, 256, 257, 258, 511, 512, 513)
+			if curve == "ed25519" {
+				n = h.OneOf(t, "eddepth", 256, 257)
+			}
+			path := make([]uint32, n)
+			for i := range path {
+				path[i] = uint32(rapid.IntRange(0, 3).Draw(t, "i")) | 1<<31
+			}
+			return deriveCase{Curve: curve, Seed: h.Bytes(t, "seed", 16, 32), Path: path, PubFrom: -1}
+		},
+		Check: func(c deriveCase) (h.Info, error) {
+			info, err := checkDerive(c)
+			info.Class = fmt.Sprintf("depth>=%d", len(c.Path)/256*256)
+			info.NT = true
+			return info, err
+		},
+		Require: []string{"depth>=256", "depth>=512"},
+		Rule:    "paths of 255..258 and 511..513 hardened steps (ed25519 and the string-key toy curve): key, chain code, public key and parent fingerprint at every depth, incl. the depths where a one-byte depth counter wraps; all non-trivial",
+	})
+}
+
+// ---- concurrent derivations from one shared parent ----
+
+type concCase struct {
+	Curve   string   `json:"curve"`
+	Seed    h.B      `json:"seed"`
+	Parent  []uint32 `json:"parent"`
+	Public  bool     `json:"public"`
+	Indices []uint32 `json:"indices"`
+	Iters   int      `json:"iters"`
+}
+
+func checkConcurrent(c concCase) (h.Info, error) {
+	dc := deriveCase{Curve: c.Curve}
+	cut, rc, _ := curves(dc)
+	if cut == nil || c.Curve[:3] == "toy" {
+		return h.Info{}, fmt.Errorf("PRECONDITION: curve %q", c.Curve)
+	}
+	info := h.Info{Class: fmt.Sprintf("%s/public=%v", c.Curve, c.Public), NT: len(c.Indices) > 1}
+	n := ref.Master(rc, c.Seed)
+	for _, idx := range c.Parent {
+		var err error
+		if n, err = ref.Child(rc, n, idx); err != nil {
+			return info, fmt.Errorf("PRECONDITION: parent path undefined: %v", err)
+		}
+	}
+	parent, err := slip10.DeriveKeyFromPath(c.Seed, cut, c.Parent)
+	if err != nil {
+		return info, fmt.Errorf("DeriveKeyFromPath(%v): %v", c.Parent, err)
+	}
+	if c.Public {
+		parent, n = parent.Public(), ref.Public(n)
+	}
+	want := make([]ref.Node, len(c.Indices))
+	for i, idx := range c.Indices {
+		if want[i], err = ref.Child(rc, n, idx); err != nil {
+			return info, fmt.Errorf("PRECONDITION: child %#x undefined: %v", idx, err)
+		}
+	}
+	err = h.Parallel(len(c.Indices), func(g int) error {
+		for it := 0; it < c.Iters; it++ {
+			child, err := parent.DeriveChild(c.Indices[g])
+			if err != nil {
+				return fmt.Errorf("goroutine %d of %d deriving children of one shared %s parent (public=%v): DeriveChild(%#x): %v", g, len(c.Indices), c.Curve, c.Public, c.Indices[g], err)
+			}
+			if err := compareNode(fmt.Sprintf("goroutine %d of %d deriving children of one shared %s parent (public=%v), iteration %d, index %#x", g, len(c.Indices), c.Curve, c.Public, it, c.Indices[g]), child, want[g]); err != nil {
+				return err
+			}
+		}
+		return nil
+	})
+	return info, err
+}
+
+func TestConcurrent(t *testing.T) {
+	h.Run(t, h.Sub[concCase]{
+		Prop: "C02", Name: "concurrent-children", N: 48,
+		Gen: func(t *rapid.T) concCase {
+			c := concCase{Curve: h.OneOf(t, "curve", "secp256k1", "nist256p1", "ed25519", "ed25519"), Seed: h.Bytes(t, "seed", 16, 64), Iters: 12}
+			if c.Curve == "ed25519" {
+				c.Iters = 200
+			}
+			for i := rapid.IntRange(0, 2).Draw(t, "plen"); i > 0; i-- {
+				c.Parent = append(c.Parent, genIndex(t, true)|1<<31)
+			}
+			c.Public = c.Curve != "ed25519" && rapid.Bool().Draw(t, "pub")
+			for i := h.OneOf(t, "g", 2, 4, 8); i > 0; i-- {
+				idx := genIndex(t, false)
+				if c.Curve == "ed25519" {
+					idx |= 1 << 31
+				}
+				if c.Public {
+					idx &^= 1 << 31
+				}
+				c.Indices = append(c.Indices, idx)
+			}
+			return c
+		},
+		Check:   checkConcurrent,
+		Require: []string{"ed25519/public=false", "secp256k1/public=true", "nist256p1/public=false"},
+		Rule:    "schedules: 2..8 goroutines released together, each repeatedly deriving its own child index (hardened and non-hardened) from one shared extended key (private or public) on the three real curves; every child = SLIP-0010 model computed beforehand; all non-trivial",
 	})
 }
